@@ -237,13 +237,19 @@ def m_ole_openstream(ex, st, obj, args, kwargs, node):
 def m_olestream_read(ex, st, obj, args, kwargs, node):
     """OleStream.read(): ASSUMED to fail (stream not READABLE) or return the whole stream: a byte string of length SLEN >= 0."""
     key = st.ghost.get(("olestream", obj.t.get_id()))
-    if key is None or args:
+    lim = args[0] if len(args) == 1 and isinstance(args[0], VInt) else None
+    if key is None or (args and lim is None) or st.ghost.get(("olestream_read", obj.t.get_id())):
         ex.exc_any(st.fork(), f"{ex.loc(node)} OleStream.read")
         return [(st, VUnk("bytes"))]
     ole, name = key[0].t, key[1].t
     ex.exc_any(st.fork().assume(z3.Not(READABLE(ole, name))), f"{ex.loc(node)} OleStream.read")
     st.assume(z3.And(SLEN(ole, name) >= 0, READABLE(ole, name)))
-    return [(st, VSeq(SLEN(ole, name), lambda i: VInt(SBYTE(ole, name, i)), "byte", True, tag=(ole, name)))]
+    st.ghost[("olestream_read", obj.t.get_id())] = True         # (a second read on the same handle continues: not modelled)
+    n = SLEN(ole, name)
+    if lim is not None:                                          # read(k): the first min(k, len) bytes (k < 0: everything)
+        k_ = ops.int_term(lim)
+        n = z3.simplify(z3.If(z3.Or(k_ < 0, k_ > n), n, k_))
+    return [(st, VSeq(n, lambda i: VInt(SBYTE(ole, name, i)), "byte", True, tag=(ole, name)))]
 
 
 def m_is_zipfile(ex, st, args, kwargs, node):
@@ -520,12 +526,17 @@ class C08Executor(readfile.ReadFileExecutor):
         if not (isinstance(seq, VSeq) and seq.is_bytes and oc in ("little", "big")) or kwargs.get("signed") is not None:
             return self.havoc_call(st, "int.from_bytes", args, node)
         n = seq.length
-        e0, e1 = ops.int_term(seq.elem(z3.IntVal(0))), ops.int_term(seq.elem(z3.IntVal(1)))
-        st.assume(z3.And(e0 >= 0, e0 <= 255, e1 >= 0, e1 <= 255))      # elements of a bytes object
+        K = 8                                                            # exact up to 8 bytes, an unknown non-negative int beyond
+        es = [ops.int_term(seq.elem(z3.IntVal(k_))) for k_ in range(K)]
         other = z3.Int(fresh_name("from_bytes"))
         st.assume(other >= 0)
-        two = e0 + 256 * e1 if oc == "little" else 256 * e0 + e1
-        return [(st, VInt(z3.If(n == 2, two, z3.If(n == 1, e0, z3.If(n == 0, z3.IntVal(0), other)))))]
+        acc = other
+        for m_ in range(K, -1, -1):
+            if m_ > 0:
+                st.assume(z3.Implies(n >= m_, z3.And(es[m_ - 1] >= 0, es[m_ - 1] <= 255)))      # elements of a bytes object
+            val = z3.Sum([es[k_] * (256 ** (k_ if oc == "little" else m_ - 1 - k_)) for k_ in range(m_)]) if m_ > 1 else (es[0] if m_ == 1 else z3.IntVal(0))
+            acc = z3.If(n == m_, val, acc)
+        return [(st, VInt(acc))]
 
     def obj_method(self, st, obj, name, args, kwargs, node):
         q = f"{st.obj(obj.ref).cls}.{name}"
